@@ -32,6 +32,13 @@ def execute(world, prop, config, ops):
     hist = Hist()
     res = {"status": "ok", "violation": None}
     try:
+        from . import hw as _hw
+        _hw.PRE_ELABORATE = bool(isinstance(config, dict) and config.get("pre"))
+        if _hw.PRE_ELABORATE:
+            stats.fault("elaborated_once_before_simulation")
+    except ImportError:
+        pass
+    try:
         world.run(config, ops, {prop}, stats, hist)
     except Violation as v:
         res["status"] = "violation"
@@ -55,6 +62,8 @@ def one_run(world, prop, verif_seed, i, keep):
     seed = run_seed(verif_seed, world.name, prop, i)
     rng = Rng(seed)
     config = world.gen_config(rng.sub("config"), prop)
+    if world.clocked and world.name != "elab" and rng.sub("pre").chance(0.1):
+        config["pre"] = 1       # restart fault: the instance is elaborated once before it is simulated
     ops = world.gen_ops(rng.sub("ops"), config, prop)
     res = execute(world, prop, config, ops)
     res["i"] = i
@@ -87,7 +96,8 @@ def _worker(args):
         if "stats" in r:
             sd = r.pop("stats").as_dict()
             r["nontrivial"] = bool(sd["work"] > 0 and (sum(sd["faults"].values()) > 0 or
-                                                       not world.fault_kinds))
+                                                       not world.fault_kinds or
+                                                       not world.nontrivial_needs_fault))
             r["cycles"] = sd["cycles"]
             _fold(agg, sd)
         out.append(r)
